@@ -22,6 +22,7 @@ TypeGo(t) ==
   CASE t = Unset -> "interface {}"
     [] t \in {"*fx.T", "*\"probe.test/fx\".T", "*T", "*\".\".T", "*probe.test/fx.T"} -> "*obj.Obj"
     [] t \in {"fx.T", "\"probe.test/fx\".T", "T", "\".\".T"} -> "obj.Obj"
+    [] OTHER -> "?"
 
 Live(cfg) == {s \in SvcNames(cfg) : ~IsTodo(cfg.services[s])}
 WithGetter(cfg) == {s \in Live(cfg) : IsSet(cfg.services[s].getter)}
